@@ -4,7 +4,7 @@ Exceptions for the puresnmp package.
 Most exceptions in this module are based on :rfc:`3416`
 """
 
-from typing import Any, List
+from typing import Any, List, Optional
 
 from x690.types import ObjectIdentifier
 
@@ -37,6 +37,9 @@ class ErrorResponse(SnmpError):
 
     #: the OID identified in the error message which caused the error.
     offending_oid: ObjectIdentifier
+
+    #: the request-id of the response which carried the error (if known)
+    request_id: Optional[int] = None
 
     @staticmethod
     def construct(
